@@ -229,10 +229,32 @@ def _jsonable(case):
     return json.loads(json.dumps(case, default=lambda o: o.decode('latin1') if isinstance(o, bytes) else repr(o)))
 
 
+def validation_cases(cs, seed, n):
+    out = []
+    for case in H.pick(cs, seed, n):
+        r = case[-1]
+        if case[0] == 'ssh1':
+            _k, cm, am, _r = case
+            out.append({'label': str(case), 'opts': RENDER[r] + ['-1'], 'make': (lambda cm=cm, am=am: peer.Server(banner=b'SSH-1.5-OpenSSH_3.4', ssh1={'cmask': cm, 'amask': am}))})
+            continue
+        role, r, lists, c2s, comp, banner = build(case)
+        if role == 'server':
+            keynames = [x.decode('utf-8', 'replace') for x in lists['key']]
+            out.append({'label': str(case)[:80], 'opts': RENDER[r], 'make': (lambda lists=lists, c2s=c2s, comp=comp, banner=banner, keynames=keynames: peer.Server(
+                banner=banner, kex=lists['kex'], key=lists['key'], enc=lists['enc'], mac=lists['mac'], enc_c2s=c2s.get('enc'), mac_c2s=c2s.get('mac'), comp=comp,
+                host_keys=peer.standard_host_keys(keynames)))})
+        else:
+            out.append({'kind': 'client', 'label': str(case)[:80], 'opts': RENDER[r], 'make': (lambda lists=lists, c2s=c2s, comp=comp, banner=banner: peer.Client(
+                banner=banner, kex=lists['kex'], key=lists['key'], enc=c2s.get('enc', lists['enc']), mac=c2s.get('mac', lists['mac']),
+                enc_s2c=lists['enc'], mac_s2c=lists['mac'], comp=comp))})
+    return out
+
+
 def run(tier, seed):
     t0 = time.time()
     cs = cases(tier)
     st = par.pmap(work, cs)
+    validated = H.validate_traces(validation_cases(cs, seed, 40 if tier == 'quick' else 200), st)
     return evidence.finish(
         PID, tier, seed, st, t0,
         rule='name alphabet per category (2 DB names, unknown, 303-char, non-UTF-8, special characters; kex adds gss-* with base64 suffixes and '
@@ -241,7 +263,7 @@ def run(tier, seed):
              'authentication mask; each distinct case is non-trivial' % (2 if tier == 'quick' else 3, '' if tier == 'quick' else ', colour'),
         assumptions=['expected names = independent decode of the bytes the scripted peer sent (mc/wire.py)',
                      'verbose rendering compared after collapsing adjacent duplicates', 'empty names are not names'],
-        exhaustive=True, extra={'cases': len(cs)})
+        exhaustive=True, traces_validated=validated, extra={'cases': len(cs)})
 
 
 def replay(path):
